@@ -165,3 +165,62 @@ func isZeroLiteral(info *types.Info, e ast.Expr) bool {
 	}
 	return false
 }
+
+// c03NoCountShortcut (NO-COUNT-SHORTCUT; C03 and C04, after round-5 seed C04-o): "the current version has at least as
+// many messages as the previous one" does not mean that none was deleted - one may have been deleted and another
+// added (a rename). A deletion handler must not return early on a comparison of the *sizes* of a current and a previous
+// collection: MESSAGE_NO_DELETE would miss the rename while PACKAGE_MESSAGE_NO_DELETE still reports it.
+func c03NoCountShortcut(c *Ctx, l *labeler, rule string) {
+	c.Rule(rule, "no handler returns early on a comparison of the sizes of a current and a previous collection", 1)
+	p := c.P
+	scanned, hits := 0, 0
+	lenArg := func(e ast.Expr) ast.Expr {
+		call, ok := ast.Unparen(e).(*ast.CallExpr)
+		if !ok || len(call.Args) != 1 {
+			return nil
+		}
+		if id, ok := call.Fun.(*ast.Ident); ok && id.Name == "len" {
+			return call.Args[0]
+		}
+		return nil
+	}
+	for _, pk := range l.pkgs {
+		info := pk.TypesInfo
+		for _, fr := range p.FuncsOf(pk) {
+			if fr.Decl.Body == nil {
+				continue
+			}
+			scanned++
+			ast.Inspect(fr.Decl.Body, func(n ast.Node) bool {
+				ifs, ok := n.(*ast.IfStmt)
+				if !ok {
+					return true
+				}
+				be, ok := ast.Unparen(ifs.Cond).(*ast.BinaryExpr)
+				if !ok {
+					return true
+				}
+				x, y := lenArg(be.X), lenArg(be.Y)
+				if x == nil || y == nil {
+					return true
+				}
+				lx, ly := l.L(info, x), l.L(info, y)
+				if !((lx == labCur && ly == labPrev) || (lx == labPrev && ly == labCur)) {
+					return true
+				}
+				returns := false
+				for _, st := range ifs.Body.List {
+					if _, isRet := st.(*ast.ReturnStmt); isRet {
+						returns = true
+					}
+				}
+				if returns {
+					hits++
+					c.Ob(rule, fr.ID()+"/size-comparison", ifs.Pos(), false, true, "`%s` compares the sizes of a current and a previous collection and returns: equal or larger size does not mean nothing was deleted", short(exprString(ifs.Cond), 80))
+				}
+				return true
+			})
+		}
+	}
+	c.Ob(rule, "functions-scanned", token.NoPos, hits == 0, scanned > 0, "%d functions scanned, %d early returns on a size comparison between versions", scanned, hits)
+}
